@@ -86,7 +86,7 @@ SIM = {  # (N, MaxB, IsIface, Def, RootExplicit, depth, WithGet, num)
     'thorough': (6, 3, 'Mixed6', 'Def12', False, 30, True, 3000),
 }
 
-ISIFACE = {'Decl4': [False] * 4, 'Decl5': [True] + [False] * 4,
+ISIFACE = {'AllIface7': [True] * 7, 'Decl4': [False] * 4, 'Decl5': [True] + [False] * 4,
            'AllIface3': [True] * 3, 'AllIface4': [True] * 4,
            'AllIface5': [True] * 5, 'Mixed3': [True, True, False],
            'Mixed4': [True, True, False, False],
@@ -157,6 +157,10 @@ def run_sim(pid, tier, v, build):
     without equal-named twin interfaces"""
     (N, maxb, isif, defc, rootx, depth, wg, num) = SIM[tier]
     plans = [(N, maxb, isif, defc, rootx, depth, wg, num, [])]
+    if pid == 'C03':
+        # wide merges (three bases, seven interfaces): where a merge that
+        # does not restart its scan after every pick goes wrong
+        plans.append((7, 3, 'AllIface7', 'NoDef', False, 16, False, num, []))
     if pid in ('C02', 'C15'):
         plans.append((4, 1, 'AllIface4', 'DefBoth', False, 14, True,
                       num, [[1, 2]]))
